@@ -47,6 +47,39 @@ def make_case(rng, cid, prec, kind, n, quick):
                 dumplu=1, timeout=120, kind=kind)
 
 
+def kernel2d_case(rng, cid, prec):
+    """the 2-D update kernel (p?gstrf_bmod2D) with every unrolled segment length: a leading supernode of w dense columns (all rows),
+    then columns whose U-segment into it has length 1, 2, 3, 4, ... in turn, and a dense trailing block; natural order, diagonally
+    dominant (diagonal pivots), blocking parameters small enough (colblk 2, rowblk 2..4) for the 2-D path to be taken"""
+    ncomp = 2 if prec in "cz" else 1
+    rnd = f32 if prec in "sc" else (lambda v: v)
+    w = rng.randint(4, 7); tcols = rng.randint(6, 10); n = w + tcols
+    ent = {}
+    for j in range(w):
+        for i in range(n):
+            ent[(i, j)] = gen.val(rng)
+    for k, j in enumerate(range(w, n)):
+        seg = 1 + (k % min(w, 5))
+        for i in range(w - seg, w):
+            ent[(i, j)] = gen.val(rng)
+        for i in range(j, n):
+            ent[(i, j)] = gen.val(rng)
+        for i in range(w, j):
+            if rng.random() < 0.5:
+                ent[(i, j)] = gen.val(rng)
+    for j in range(n):
+        ent[(j, j)] = (sum(abs(v) for (i, jj), v in ent.items() if jj == j) + 1.0) * rng.choice([1, -1])
+    A = gen.from_entries(n, ent, "kernel2d")
+    vals = []
+    for v in A["vals"]:
+        vals += [rnd(v), rnd(gen.val(rng) * 0.3)] if ncomp == 2 else [rnd(v)]
+    rhs = [rnd(gen.val(rng)) for _ in range(n * ncomp)]
+    return dict(id=cid, prec=prec, driver="gssv", stype="NC", m=n, n=n, colptr=A["colptr"], rowind=A["rowind"], vals=vals,
+                nrhs=1, rhs=rhs, ldb=n, nprocs=rng.choice([1, 2]), colperm=0,
+                ienv=[rng.choice([1, 2, 4]), 1, rng.choice([8, 20]), rng.choice([2, 3, 4]), 2, -50, -50, -30],
+                perturb=None, dumplu=1, timeout=120, kind="kernel2d")
+
+
 def cplx(flat):
     return [complex(flat[2 * i], flat[2 * i + 1]) for i in range(len(flat) // 2)]
 
@@ -129,6 +162,8 @@ def run(ctx):
         for k in range(N[prec]):
             nmax = (30 if ctx.quick() else 80) if prec == "d" else (16 if ctx.quick() else 30)
             cases.append(make_case(rng, k + 1, prec, kinds[k % len(kinds)], rng.randint(1, nmax), ctx.quick()))
+        for k in range(4 if ctx.quick() else 30):
+            cases.append(kernel2d_case(rng, 5000 + k, prec))
         for flavor in (("hooks", "vendor") if prec == "d" else ("hooks",)):
             exe = drv.build(ctx, prec, flavor)
             sub = cases if flavor == "hooks" else cases[::3]
